@@ -243,8 +243,8 @@ package document
 //@ ensures err == nil ==> forall r int, c int :: 0 <= r && r < len(t.Rows) && r != row && 0 <= c && c < len(t.Rows[r].Cells) ==> t.Rows[r].Cells[c] == old(t.Rows[r].Cells[c])
 //@ ensures err == nil && old(cellPropsOwn(t)) && (forall c int :: 0 <= c && c < startCol ==> t.Rows[row].Cells[c] == old(t.Rows[row].Cells[c])) && (forall c int :: startCol < c && c < len(t.Rows[row].Cells) ==> t.Rows[row].Cells[c] == old(t.Rows[row].Cells[c + (endCol - startCol)])) && (forall r int, c int :: 0 <= r && r < len(t.Rows) && r != row && 0 <= c && c < len(t.Rows[r].Cells) ==> t.Rows[r].Cells[c] == old(t.Rows[r].Cells[c])) ==> cellPropsOwn(t)
 //@ ensures err == nil && old(rowPropsOwn(t)) && (forall c int :: 0 <= c && c < startCol ==> t.Rows[row].Cells[c] == old(t.Rows[row].Cells[c])) && (forall c int :: startCol < c && c < len(t.Rows[row].Cells) ==> t.Rows[row].Cells[c] == old(t.Rows[row].Cells[c + (endCol - startCol)])) && (forall r int, c int :: 0 <= r && r < len(t.Rows) && r != row && 0 <= c && c < len(t.Rows[r].Cells) ==> t.Rows[r].Cells[c] == old(t.Rows[r].Cells[c])) ==> rowPropsOwn(t)
-//@ ensures err == nil && old(cellParasOwn(t)) && (forall c int :: 0 <= c && c < startCol ==> t.Rows[row].Cells[c] == old(t.Rows[row].Cells[c])) && (forall c int :: startCol < c && c < len(t.Rows[row].Cells) ==> t.Rows[row].Cells[c] == old(t.Rows[row].Cells[c + (endCol - startCol)])) && (forall r int, c int :: 0 <= r && r < len(t.Rows) && r != row && 0 <= c && c < len(t.Rows[r].Cells) ==> t.Rows[r].Cells[c] == old(t.Rows[r].Cells[c])) ==> cellParasOwn(t)
-//@ ensures err == nil && old(paraRunsOwn(t)) && (forall c int :: 0 <= c && c < startCol ==> t.Rows[row].Cells[c] == old(t.Rows[row].Cells[c])) && (forall c int :: startCol < c && c < len(t.Rows[row].Cells) ==> t.Rows[row].Cells[c] == old(t.Rows[row].Cells[c + (endCol - startCol)])) && (forall r int, c int :: 0 <= r && r < len(t.Rows) && r != row && 0 <= c && c < len(t.Rows[r].Cells) ==> t.Rows[r].Cells[c] == old(t.Rows[r].Cells[c])) ==> paraRunsOwn(t)
+//@ ensures err == nil && old(cellParasOwn(t)) && t.Rows[row].Cells[startCol].Paragraphs == old(t.Rows[row].Cells[startCol].Paragraphs) && (forall c int :: 0 <= c && c < startCol ==> t.Rows[row].Cells[c] == old(t.Rows[row].Cells[c])) && (forall c int :: startCol < c && c < len(t.Rows[row].Cells) ==> t.Rows[row].Cells[c] == old(t.Rows[row].Cells[c + (endCol - startCol)])) && (forall r int, c int :: 0 <= r && r < len(t.Rows) && r != row && 0 <= c && c < len(t.Rows[r].Cells) ==> t.Rows[r].Cells[c] == old(t.Rows[r].Cells[c])) ==> cellParasOwn(t)
+//@ ensures err == nil && old(paraRunsOwn(t)) && t.Rows[row].Cells[startCol].Paragraphs == old(t.Rows[row].Cells[startCol].Paragraphs) && (forall c int :: 0 <= c && c < startCol ==> t.Rows[row].Cells[c] == old(t.Rows[row].Cells[c])) && (forall c int :: startCol < c && c < len(t.Rows[row].Cells) ==> t.Rows[row].Cells[c] == old(t.Rows[row].Cells[c + (endCol - startCol)])) && (forall r int, c int :: 0 <= r && r < len(t.Rows) && r != row && 0 <= c && c < len(t.Rows[r].Cells) ==> t.Rows[r].Cells[c] == old(t.Rows[r].Cells[c])) ==> paraRunsOwn(t)
 
 //@ func (*Table).MergeCellsVertical
 //@ props C09
